@@ -342,6 +342,117 @@ theorem mkStep_resolved (c : Call) (ar : Nat × Nat) (r : RStep) (hr : r.rolesOk
 
 end Mahotas.C12
 
+namespace Mahotas.C12
+
+/-! ## value tie: template_match (`C07.tmAt`) -/
+
+/-- the live samples of the template indices `js` -/
+def tmLiveOf (md : Mode) (vA : C08.View) (tshape : List Nat) (p : List Int) (js : List Nat) : List (Int × Nat) :=
+  js.filterMap fun j => (nbrAddr md vA (addPos p (C07.offsetOf tshape j))).map fun a => (a, j)
+
+theorem tmVals_eq (md : Mode) (vA : C08.View) (f : Img Int) (hshape : f.shape = vA.shape)
+    (tshape : List Nat) (tp : Array Int) (valF : Int → Val) (valT : Nat → Val)
+    (hF : ∀ q q', fixPos md vA.shape q = some q' → valF (vA.addr (q'.map Int.toNat)) = f.getD q' 0)
+    (p : List Int) (js : List Nat) (hT : ∀ j ∈ js, valT j = tp.getD j 0) (d : Int) :
+    tmVals false ((tmLiveOf md vA tshape p js).map (fun aj => valF aj.1))
+        ((tmLiveOf md vA tshape p js).map (fun aj => valT aj.2)) d =
+      js.foldl (fun diff2 j =>
+        match fixPos md f.shape (addPos p (C07.offsetOf tshape j)) with
+        | some q =>
+          let val := f.getD q 0
+          let tj := tp.getD j 0
+          let delta := if val > tj then val - tj else tj - val
+          diff2 + delta * delta
+        | none => diff2) d := by
+  induction js generalizing d with
+  | nil => simp [tmLiveOf, tmVals]
+  | cons j rest ih =>
+    simp only [List.foldl_cons]
+    rw [hshape]
+    cases hfix : fixPos md vA.shape (addPos p (C07.offsetOf tshape j)) with
+    | none =>
+      have h1 : tmLiveOf md vA tshape p (j :: rest) = tmLiveOf md vA tshape p rest := by
+        simp [tmLiveOf, nbrAddr, hfix]
+      rw [h1]
+      have := ih (fun j' hj' => hT j' (List.mem_cons_of_mem _ hj')) d
+      rw [hshape] at this
+      exact this
+    | some q' =>
+      have h1 : tmLiveOf md vA tshape p (j :: rest) =
+          (vA.addr (q'.map Int.toNat), j) :: tmLiveOf md vA tshape p rest := by
+        simp [tmLiveOf, nbrAddr, hfix]
+      rw [h1]
+      simp only [List.map_cons, tmVals, Bool.false_and, Bool.false_eq_true, if_false]
+      rw [hF _ _ hfix, hT j (List.mem_cons_self ..)]
+      have := ih (fun j' hj' => hT j' (List.mem_cons_of_mem _ hj'))
+        (d + (if f.getD q' 0 > tp.getD j 0 then f.getD q' 0 - tp.getD j 0 else tp.getD j 0 - f.getD q' 0) *
+          (if f.getD q' 0 > tp.getD j 0 then f.getD q' 0 - tp.getD j 0 else tp.getD j 0 - f.getD q' 0))
+      rw [hshape] at this
+      exact this
+
+theorem templateMatch_solo_value (kcs : List KCall) (t : Nat) (md : Mode) (vA vOut vT : C08.View)
+    (aF aT aOut : Nat)
+    (hk : kcs[t]? = some ((Kernel2.templateMatch md false vA vOut vT).call ⟨[aF, aT], [aOut]⟩))
+    (hne1 : aF ≠ aOut) (hne2 : aT ≠ aOut)
+    (f : Img Int) (hshape : f.shape = vA.shape) (tp : Array Int) (m : Mem)
+    (hA : ∀ q q', fixPos md vA.shape q = some q' →
+        m ((KLoc.mk aF (vA.addr (q'.map Int.toNat))).toLoc (kcs.map (·.call))) = f.getD q' 0)
+    (hT : ∀ j : Nat, j < shapeSize vT.shape →
+        m ((KLoc.mk aT (vT.base + (j : Int))).toLoc (kcs.map (·.call))) = tp.getD j 0)
+    (hinj : ∀ k k', k < shapeSize vA.shape → k' < shapeSize vA.shape →
+        iterAddr vOut k = iterAddr vOut k' → k = k')
+    (k : Nat) (hkn : k < shapeSize vA.shape) :
+    solo (compile kcs) t m ((KLoc.mk aOut (iterAddr vOut k)).toLoc (kcs.map (·.call))) =
+      C07.tmAt md f vT.shape tp (unravelI vA.shape k) := by
+  let c : Call := ⟨[aF, aT], [aOut]⟩
+  have hcne : c.outputs ≠ [] := by simp [c]
+  let calls := kcs.map (·.call)
+  let G : Nat → Step := fun k => (mkStep c (tmPixel md false vA vOut vT k)).compile calls
+  have hprog := compile_gather kcs t c [] (tmPixel md false vA vOut vT) (shapeSize vA.shape) hk
+  have hdst : ∀ k, (G k).dst = (KLoc.mk aOut (iterAddr vOut k)).toLoc calls := fun k => rfl
+  rw [solo_eq_execAll, hprog, ← hdst k]
+  rw [gather_solo _ G _ (fun a b ha hb hab => by
+      rw [hdst a, hdst b] at hab
+      have := KLoc.toLoc_inj calls _ _ hab
+      exact hinj a b ha hb (by simpa using this)) m k hkn]
+  -- the argument arrays still hold the initial memory
+  have hread : ∀ l : KLoc, l.arr ∉ c.outputs →
+      (execAll (([] : List RStep).map (fun r => (mkStep c r).compile calls) ++
+        (List.range k).map G) m) (l.toLoc calls) = m (l.toLoc calls) := by
+    intro l hout
+    apply execAll_frame
+    intro s hs
+    rcases List.mem_append.1 hs with h | h
+    · simp at h
+    · obtain ⟨j, _, rfl⟩ := List.mem_map.1 h
+      exact compiled_dst_ne calls c hcne _ l hout
+  obtain ⟨M, hM⟩ : ∃ M, M = execAll (([] : List RStep).map (fun r => (mkStep c r).compile calls) ++
+        (List.range k).map G) m := ⟨_, rfl⟩
+  rw [← hM] at hread ⊢
+  let p := unravelI vA.shape k
+  let live := tmLive md vA vT.shape p
+  have hsrcs : (G k).srcs.map M.get =
+      live.map (fun aj => M ((KLoc.mk aF aj.1).toLoc calls)) ++
+        live.map (fun aj => M ((KLoc.mk aT (vT.base + (aj.2 : Int))).toLoc calls)) := by
+    simp only [G, KStep.compile, mkStep, tmPixel, List.map_append, List.map_map]
+    rfl
+  rw [hsrcs]
+  show tmVals false (List.take live.length _) (List.drop live.length _) 0 = _
+  rw [List.take_left' (by simp), List.drop_left' (by simp)]
+  have hlive : live = tmLiveOf md vA vT.shape p (List.range (shapeSize vT.shape)) := rfl
+  rw [hlive]
+  have key := tmVals_eq md vA f hshape vT.shape tp (fun a => M ((KLoc.mk aF a).toLoc calls))
+    (fun j => M ((KLoc.mk aT (vT.base + (j : Int))).toLoc calls))
+    (fun q q' hq => by
+      rw [hread _ (by simp [c, hne1])]; exact hA q q' hq)
+    p (List.range (shapeSize vT.shape))
+    (fun j hj => by
+      rw [hread _ (by simp [c, hne2])]; exact hT j (List.mem_range.1 hj)) 0
+  rw [key]
+  rfl
+
+end Mahotas.C12
+
 /-! # property theorems (to be placed in `Properties/C12.lean`) -/
 
 open Mahotas Mahotas.C12
@@ -448,3 +559,29 @@ theorem C12_concurrent_calls_independent (kcs : List KCall)
       simp only [calls, List.getElem?_map, Option.map_eq_some_iff] at h1
       obtain ⟨kc, hkc, rfl⟩ := h1
       exact absurd h3 (hl kc (List.mem_of_getElem? hkc))
+
+/-- **C12-T4 (tie: the template_match program computes `C07.tmAt`).** Let call number `t` of ANY family of
+calls be `template_match` (`just_equality = false`, any border mode, any views of the image / result /
+template) on arrays `[aF, aT]` → `[aOut]`, the result array distinct from both arguments. If the initial memory
+presents the logical image `f` through the view `vA` at every position the border rule delivers, and the
+template `tp` at `t.data()[j]` (`vT.base + j`, `j` below the template size: the wrapper passes a C-contiguous
+template), and the result view does not overlap itself, then after the SOLO run of the compiled step program
+— one step per pixel whose operation recomputes `diff2` from the values READ from the image and from the
+template — the result location of pixel number `k` holds exactly `C07.tmAt mode f tshape tp (unravel k)`, the
+value of the model the driver runs (`c07 kind=tm`). With `C12_concurrent_calls_independent` the same value is
+there after every complete interleaving with any other calls that have disjoint outputs. -/
+theorem C12_template_match_program_computes_model (kcs : List KCall) (t : Nat) (md : Mode)
+    (vA vOut vT : C08.View) (aF aT aOut : Nat)
+    (hk : kcs[t]? = some ((Kernel2.templateMatch md false vA vOut vT).call ⟨[aF, aT], [aOut]⟩))
+    (hne1 : aF ≠ aOut) (hne2 : aT ≠ aOut)
+    (f : Img Int) (hshape : f.shape = vA.shape) (tp : Array Int) (m : Mem)
+    (hA : ∀ q q', fixPos md vA.shape q = some q' →
+        m ((KLoc.mk aF (vA.addr (q'.map Int.toNat))).toLoc (kcs.map (·.call))) = f.getD q' 0)
+    (hT : ∀ j : Nat, j < shapeSize vT.shape →
+        m ((KLoc.mk aT (vT.base + (j : Int))).toLoc (kcs.map (·.call))) = tp.getD j 0)
+    (hinj : ∀ k k', k < shapeSize vA.shape → k' < shapeSize vA.shape →
+        iterAddr vOut k = iterAddr vOut k' → k = k')
+    (k : Nat) (hkn : k < shapeSize vA.shape) :
+    solo (compile kcs) t m ((KLoc.mk aOut (iterAddr vOut k)).toLoc (kcs.map (·.call))) =
+      C07.tmAt md f vT.shape tp (unravelI vA.shape k) :=
+  templateMatch_solo_value kcs t md vA vOut vT aF aT aOut hk hne1 hne2 f hshape tp m hA hT hinj k hkn
